@@ -14,9 +14,9 @@ From YQ Require Import Base.Str Model.YamlBridge Proofs.YamlBridgeProofs.
 (* Conversion: for every node tree yaml.v3 can build (ywf), UnmarshalYAML
    followed by MarshalYAML returns the same tree on every field - kind, style,
    tag, value, anchor, the three comments, line, column, children in order -
-   except exactly the two normalisations of [norm]: the Alias pointer is not
-   restored (the emitter prints an alias from its Value), and a child tagged
-   !!null becomes a scalar without children (decodeIntoChild). *)
+   except the one normalisation of [norm]: the Alias pointer is not restored
+   (the emitter prints an alias from its Value).  (Since the repair of
+   decodeIntoChild a collection tagged !!null keeps its content.) *)
 Theorem C05_node_roundtrip : forall (n : ynode) (is_key : bool) (key : option (str * str)) (c : cnode),
   ywf n = true -> from_y is_key key n = Some c -> to_y c = norm n.
 Proof. exact node_roundtrip. Qed.
@@ -27,16 +27,16 @@ Theorem C05_conversion_total : forall (n : ynode) (is_key : bool) (key : option 
 Proof. exact from_y_total. Qed.
 Print Assumptions C05_conversion_total.
 
-(* [norm] changes nothing on trees without aliases and without a collection
-   tagged !!null: there the round trip is the identity. *)
+(* [norm] changes nothing on trees without alias pointers: there the round
+   trip is the identity. *)
 Theorem C05_node_roundtrip_exact : forall n : ynode, norm_free n = true -> norm n = n.
 Proof. exact norm_free_id. Qed.
 Print Assumptions C05_node_roundtrip_exact.
 
 (* Leading content: for every header block (blank lines, separator lines,
-   comment lines indented by at most 3 white-space characters, not containing
-   the internal marker text) in front of any body at which the scanner stops
-   (at least 4 bytes), processReadStream splits exactly there and
+   comment lines indented by at most 3 white-space characters - whatever their
+   text, the internal marker included) in front of any body at which the
+   scanner stops (however short), processReadStream splits exactly there and
    PrintLeadingContent prints the block back byte for byte. *)
 Theorem C05_leading_roundtrip : forall (hs : list hline) (body : str),
   Forall (fun h => hline_ok h = true) hs -> body_ok body = true ->
@@ -77,61 +77,20 @@ Theorem C05_second_pass_fixed_partial :
 Proof. exact second_pass_fixed. Qed.
 Print Assumptions C05_second_pass_fixed_partial.
 
-(* Finding: a comment that contains the internal marker text is printed as a
-   document separator. *)
-Theorem C05_marker_injection_refuted : exists c : str,
-  comment_re c = true /\ print_leading_content c = str_of_string "---
-"%string.
-Proof. exists (str_of_string "# $yqDocSeparator$
-"%string). split; vm_compute; reflexivity. Qed.
-Print Assumptions C05_marker_injection_refuted.
-
-(* Finding: a white-space-only line in front of a comment is kept as leading
-   content and printed back as a comment. *)
-Theorem C05_whitespace_line_refuted : exists s : str,
-  let '(lead, rest) := process_read_stream s in
-  print_leading_content lead ++ rest <> s.
-Proof. exists (str_of_string " 
-#c
-a: 1
-"%string). vm_compute. discriminate. Qed.
-Print Assumptions C05_whitespace_line_refuted.
-
-(* Finding: with fewer than 4 bytes left the scanner stops, so the blank line
-   in front of a tiny document is not kept. *)
-Theorem C05_peek4_short_stream_refuted :
-  process_read_stream (str_of_string "
-0
-"%string) = ([], str_of_string "
-0
-"%string)
-  /\ fst (process_read_stream (str_of_string "
-
-0
-"%string)) = [10].
-Proof. split; vm_compute; reflexivity. Qed.
-Print Assumptions C05_peek4_short_stream_refuted.
-
-(* Finding: a collection tagged !!null loses its content in the conversion. *)
-Theorem C05_null_tagged_collection_refuted : exists n c,
-  ywf n = true /\ from_y false None n = Some c /\ to_y c <> n
-  /\ y_content (nth 1 (y_content (to_y c)) n) = [].
-Proof.
-  exists (YNode YMapping 0 (str_of_string "!!map") [] [] None [] [] [] 1 1
-            [ YNode YScalar 0 (str_of_string "!!str") [97] [] None [] [] [] 1 1 [];
-              YNode YSequence 32 t_null [] [] None [] [] [] 1 4
-                [ YNode YScalar 0 t_int [49] [] None [] [] [] 1 12 [] ] ]).
-  eexists. split; [reflexivity|]. split; [vm_compute; reflexivity|]. split; [vm_compute; discriminate|reflexivity].
-Qed.
-Print Assumptions C05_null_tagged_collection_refuted.
+(* A white-space-only line kept as leading content is printed back as it is
+   (it used to get a comment prefix). *)
+Theorem C05_whitespace_line_kept : forall pre : str,
+  forallb is_hsp pre = true -> out_line (pre ++ [10]) = (pre ++ [10])%list.
+Proof. exact out_line_space. Qed.
+Print Assumptions C05_whitespace_line_kept.
 
 (* non-vacuity: a header block and a body in the domain of the theorems *)
 Example C05_example :
-  let hs := [HComment [] (str_of_string " top"); HBlank; HSep; HComment [32; 32] (str_of_string " second")] in
-  let body := str_of_string "a: 1 # line
+  let hs := [HComment [] (str_of_string " top $yqDocSeparator$"); HBlank; HSep; HComment [32; 32] (str_of_string " second")] in
+  let body := str_of_string "0
 " in
   Forall (fun h => hline_ok h = true) hs /\ body_ok body = true
-  /\ render hs = str_of_string "# top
+  /\ render hs = str_of_string "# top $yqDocSeparator$
 
 ---
   # second
